@@ -43,6 +43,9 @@ def _pool():
             P.append({'kind': 'dwt2_fwd', 'wave': w, 'mode': m, 'J': J})
     for m in ('symmetric', 'periodic', 'zero', 'periodization'):
         P.append({'kind': 'dwt2_inv', 'wave': 'db2', 'mode': m, 'J': 2})
+    # a level handed over as None (its size has to be inferred from the finer level on every call)
+    P.append({'kind': 'dwt2_inv', 'wave': 'db2', 'mode': 'symmetric', 'J': 3, 'none': [1]})
+    P.append({'kind': 'dwt2_inv', 'wave': 'db2', 'mode': 'zero', 'J': 2, 'none': [1]})
     # separate column / row filters (4-tuple form)
     P.append({'kind': 'dwt2_fwd', 'wave': 'db2', 'wave_row': 'bior2.2', 'mode': 'zero', 'J': 2})
     P.append({'kind': 'dwt2_fwd', 'wave': 'db3', 'wave_row': 'coif1', 'mode': 'periodization', 'J': 1})
